@@ -94,6 +94,31 @@ class C09(common.Spec):
                 def init_from_value(self, value):
                     self.set_output(value)
 
+            class SI(edzed.SBlock):
+                """its synchronous initialisation fails"""
+                def init_regular(self):
+                    log.append(['src', 'syncinit', 77])
+                    raise Tagged(77)
+
+                def _event_put(self, **_d):
+                    self.set_output(1)
+
+            class PR(edzed.AddonPersistence, edzed.SBlock):
+                def get_state(self):
+                    return self.output
+
+                def _restore_state(self, state):
+                    self.set_output(state)         # sends on_output from inside the restoration
+
+                def init_regular(self):
+                    if not self.is_initialized():
+                        self.set_output(0)
+
+            class AS(edzed.AddonAsync, edzed.SBlock):
+                async def init_async(self):
+                    await asyncio.sleep(0.001)
+                    self.set_output(1)             # sends on_output from inside the init task
+
             def calc(v):
                 if isinstance(v, tuple) and v and v[0] == 'boom':
                     log.append(['src', 'calc', v[1]])
@@ -106,15 +131,25 @@ class C09(common.Spec):
             trig2 = edzed.Input('trig2', initdef=0)
             edzed.FuncBlock('fb2', func=lambda v: v, on_output=edzed.Event(hp, 'relay')).connect(trig2)
             edzed.FuncBlock('fb3', func=calc).connect('fb2')
+            sie = case.get('sync_init_error')
+            if sie == 'via_restore':
+                circuit.set_persistent_data({"<PR 'pr'>": 5, 'edzed-stop-time': 1.0})
+                PR('pr', persistent=True, on_output=edzed.Event('si', 'put'))
+            elif sie == 'via_async':
+                AS('as_', on_output=edzed.Event('si', 'put'))
+            if sie:
+                SI('si')
             if case.get('async_init_error'):
                 AI('ai', initdef=1)
-            if case.get('restore_error'):
+            if case.get('restore_error') and sie != 'via_restore':
                 circuit.set_persistent_data({"<Counter 'cnt'>": 'not a number', 'edzed-stop-time': 1.0})
                 edzed.Counter('cnt', persistent=True)
             edzed.Event('_ctrl', 'abort')          # makes the control block exist
             orig_abort = circuit.abort
 
             def abort(exc):
+                if obs.get('finished'):
+                    return orig_abort(exc)        # the harness's own reset_circuit() afterwards
                 if isinstance(exc, asyncio.CancelledError):
                     log.append(['abort', 'cancel', None])
                 else:
@@ -212,6 +247,7 @@ class C09(common.Spec):
             obs['error'] = None if err is None else (['cancel'] if isinstance(err, asyncio.CancelledError)
                                                       else ['exc', tag_of(err)])
             obs['ready_after'] = circuit.is_ready()
+            obs['finished'] = True
 
         try:
             vloop.run_virtual(main, wall_limit_s=8.0)
@@ -228,7 +264,7 @@ class C09(common.Spec):
             return ("{| ec_sources := []; ec_sups := []; ec_error := None; ec_run := ReturnsNone; "
                     "ec_shutdown := None; ec_ready_after := true; ec_abort_log := [] |}")
         kinds = {'handler': 'SHandlerError', 'calc': 'SCalcError', 'montask': 'SMonitoredTask',
-                 'abort': 'SAbortCall', 'ctrl_abort': 'SCtrlAbort'}
+                 'abort': 'SAbortCall', 'ctrl_abort': 'SCtrlAbort', 'syncinit': 'SSyncInitError'}
         sources, abort_log = [], []
         log = obs['log']
         for i, e in enumerate(log):
@@ -236,7 +272,8 @@ class C09(common.Spec):
                 k = e[1]
                 if k in kinds:
                     sources.append(f"{kinds[k]} {cz(e[2] if e[2] is not None else -1)}")
-                    if k == 'calc':
+                    if k in ('calc', 'syncinit'):
+                        # reaches the simulator through the except clause of run_forever, not abort()
                         abort_log.append(f"DExc {cz(e[2])}")
                 elif k == 'ctrl_shutdown':
                     sources.append('SCtrlShutdown')
@@ -254,7 +291,7 @@ class C09(common.Spec):
                         sources.append('SShutdown')     # shutdown() or run() asked the simulator to stop
         if case.get('async_init_error'):
             sources.insert(0, 'SAsyncInitError')
-        if case.get('restore_error'):
+        if case.get('restore_error') and case.get('sync_init_error') != 'via_restore':
             sources.insert(0, 'SRestoreError')
         if case.get('stop_error'):
             sources.append('SStopError')
@@ -284,7 +321,7 @@ class C09(common.Spec):
         sups = case['sups']
         for i in range(len(sups)):
             yield dict(case, sups=sups[:i] + sups[i + 1:])
-        for k in ('async_init_error', 'restore_error', 'stop_error'):
+        for k in ('async_init_error', 'restore_error', 'stop_error', 'sync_init_error'):
             if case.get(k):
                 yield dict(case, **{k: False})
 
@@ -314,7 +351,8 @@ def gen_case(rng):
         tag += 1
     return dict(events=events, sups=sups, tail_us=rng.choice([0, 150_000]),
                 async_init_error=rng.random() < 0.15, restore_error=rng.random() < 0.15,
-                stop_error=rng.random() < 0.15)
+                stop_error=rng.random() < 0.15,
+                sync_init_error=rng.choice([None] * 12 + ['direct', 'via_restore', 'via_async']))
 
 
 def check(run):
